@@ -77,13 +77,16 @@ def parseF64Bits (s : List Char) : Option UInt64 :=
             some (decToBits neg m (ev - fp.length))
         else none
 
-instance : FloatLit Float where
+/-- `formulas`: the texts `formula::parse` accepts, with the digest of the parsed AST
+(supplied by the harness with every request; formula syntax is property C05). -/
+@[reducible] def floatLit (formulas : List (Str × String)) : FloatLit Float where
   inf := Float.ofBits 0x7ff0000000000000
   negInf := Float.ofBits 0xfff0000000000000
   f64Min := Float.ofBits 0xffefffffffffffff
   f64Max := Float.ofBits 0x7fefffffffffffff
   parse s := (parseF64Bits s).map Float.ofBits
   ofInt i := Float.ofInt i
+  formulaOk s := formulas.any fun x => x.1 == s
 
 /-! ## Request decoding -/
 
@@ -153,6 +156,7 @@ def dFB (f : Float) : String :=
 
 structure Ctx where
   st : St Float
+  formulas : List (Str × String)
 
 def Ctx.name (c : Ctx) (id : Nat) : Str := c.st.names.getD id ['?']
 def dR (c : Ctx) (id : Nat) : String := "@" ++ strHex (c.name id)
@@ -234,11 +238,14 @@ def dRB (c : Ctx) (r : RegBase) : String :=
     "am=" ++ dAccessMode r.accessMode, "port=" ++ dR c r.pPort, "cm=" ++ dCachingMode r.cacheable,
     "pt=" ++ dOU r.pollingTime, "inv=" ++ dLR c r.pInvalidators]
 
-def dX (s : Str) : String := dS s
+def dX (c : Ctx) (s : Str) : String :=
+  match c.formulas.find? fun x => x.1 == s with
+  | some x => "#" ++ x.2
+  | none => "?"
 def dNVR (c : Ctx) (v : NamedValue Nat) : String := dS v.name ++ ":" ++ dR c v.value
 def dNVI (v : NamedValue Int) : String := dS v.name ++ ":" ++ dInt v.value
 def dNVF (v : NamedValue Float) : String := dS v.name ++ ":" ++ dFB v.value
-def dNVX (v : NamedValue Str) : String := dS v.name ++ ":" ++ dX v.value
+def dNVX (c : Ctx) (v : NamedValue Str) : String := dS v.name ++ ":" ++ dX c v.value
 
 def kindName : NodeData Float → String
   | .node _ => "Node" | .category _ => "Category" | .integer _ => "Integer" | .intReg _ => "IntReg"
@@ -268,7 +275,7 @@ def dNode (c : Ctx) (d : NodeData Float) : String :=
     | .enumeration n => [dBase c n.attr n.elem n.streamable, "ent=" ++ dLR c n.entries,
         "val=" ++ dIPV c n.value, "sel=" ++ dLR c n.pSelected, "pt=" ++ dOU n.pollingTime]
     | .enumEntry n => [dBase c n.attr n.elem false, "v=" ++ dInt n.value,
-        "nv=" ++ dFB (n.numericValue.getD (FloatLit.ofInt n.value)), "sym=" ++ dS n.symbolic,
+        "nv=" ++ dFB (n.numericValue.getD (Float.ofInt n.value)), "sym=" ++ dS n.symbolic,
         "sc=" ++ dB n.isSelfClearing]
     | .float n => [dBase c n.attr n.elem n.streamable, "vk=" ++ dVK c n.valueKind,
         "min=" ++ dIPV c n.min, "max=" ++ dIPV c n.max,
@@ -285,20 +292,20 @@ def dNode (c : Ctx) (d : NodeData Float) : String :=
         "cid=" ++ (match n.chunkId with | none => "~" | some i => dIPU c i),
         "se=" ++ dB n.swapEndianness, "ccd=" ++ dB n.cacheChunkData]
     | .converter n => [dBase c n.attr n.elem n.streamable, "pv=" ++ dList (dNVR c) n.pVariables,
-        "co=" ++ dList dNVF n.constants, "ex=" ++ dList dNVX n.expressions, "fto=" ++ dX n.formulaTo,
-        "ffr=" ++ dX n.formulaFrom, "pval=" ++ dR c n.pValue, "un=" ++ dOS n.unit,
+        "co=" ++ dList dNVF n.constants, "ex=" ++ dList (dNVX c) n.expressions, "fto=" ++ dX c n.formulaTo,
+        "ffr=" ++ dX c n.formulaFrom, "pval=" ++ dR c n.pValue, "un=" ++ dOS n.unit,
         "rep=" ++ dFloatRepr n.representation, "dno=" ++ dDisplayNotation n.displayNotation,
         "dpr=" ++ dInt n.displayPrecision, "sl=" ++ dSlope n.slope, "lin=" ++ dB n.isLinear]
     | .intConverter n => [dBase c n.attr n.elem n.streamable, "pv=" ++ dList (dNVR c) n.pVariables,
-        "co=" ++ dList dNVI n.constants, "ex=" ++ dList dNVX n.expressions, "fto=" ++ dX n.formulaTo,
-        "ffr=" ++ dX n.formulaFrom, "pval=" ++ dR c n.pValue, "un=" ++ dOS n.unit,
+        "co=" ++ dList dNVI n.constants, "ex=" ++ dList (dNVX c) n.expressions, "fto=" ++ dX c n.formulaTo,
+        "ffr=" ++ dX c n.formulaFrom, "pval=" ++ dR c n.pValue, "un=" ++ dOS n.unit,
         "rep=" ++ dIntRepr n.representation, "sl=" ++ dSlope n.slope]
     | .swissKnife n => [dBase c n.attr n.elem n.streamable, "pv=" ++ dList (dNVR c) n.pVariables,
-        "co=" ++ dList dNVF n.constants, "ex=" ++ dList dNVX n.expressions, "f=" ++ dX n.formula,
+        "co=" ++ dList dNVF n.constants, "ex=" ++ dList (dNVX c) n.expressions, "f=" ++ dX c n.formula,
         "un=" ++ dOS n.unit, "rep=" ++ dFloatRepr n.representation,
         "dno=" ++ dDisplayNotation n.displayNotation, "dpr=" ++ dInt n.displayPrecision]
     | .intSwissKnife n => [dBase c n.attr n.elem n.streamable, "pv=" ++ dList (dNVR c) n.pVariables,
-        "co=" ++ dList dNVI n.constants, "ex=" ++ dList dNVX n.expressions, "f=" ++ dX n.formula,
+        "co=" ++ dList dNVI n.constants, "ex=" ++ dList (dNVX c) n.expressions, "f=" ++ dX c n.formula,
         "un=" ++ dOS n.unit, "rep=" ++ dIntRepr n.representation]
   kindName d ++ "{" ++ ";".intercalate body ++ "}"
 
@@ -322,8 +329,9 @@ def dLook (st : St Float) (name : Str) : String :=
       | some (_, d) => kindName d
       | none => "-"
 
-def dDoc (rd : RegisterDescription) (st : St Float) (looks : List Str) : String :=
-  let c : Ctx := ⟨st⟩
+def dDoc (rd : RegisterDescription) (st : St Float) (formulas : List (Str × String))
+    (looks : List Str) : String :=
+  let c : Ctx := ⟨st, formulas⟩
   "ok rd{" ++ dRD rd ++ "} nodes[" ++ "|".intercalate ((sortedNodes st).map fun x => dNode c x.2) ++
   "] inval[" ++ ",".intercalate (st.invals.map fun x => dR c x.1 ++ ">" ++ dR c x.2) ++
   "] look[" ++ ",".intercalate (looks.map (dLook st)) ++ "]"
@@ -336,20 +344,38 @@ def takeLooks : Nat → List String → Option (List Str × List String)
     | _, _ => none
   | _, _ => none
 
+def takeFormulas : Nat → List String → Option (List (Str × String) × List String)
+  | 0, ts => some ([], ts)
+  | n + 1, h :: d :: ts =>
+    match hexToStr h, takeFormulas n ts with
+    | some s, some (ls, r) => some ((s, d) :: ls, r)
+    | _, _ => none
+  | _, _ => none
+
+def handleDoc (pr : Profile) (formulas : List (Str × String)) (looks : List Str) (root : Elem) :
+    String :=
+  letI : FloatLit Float := floatLit formulas
+  match (parseDocument pr root : R (RegisterDescription × St Float)) with
+  | .ok (rd, st) => dDoc rd st formulas looks
+  | .err _ => "err"
+  | .panic => "panic"
+
 def handle : List String → String
-  | "doc" :: p :: nlook :: rest =>
-    match profileOf p, nlook.toNat? with
-    | some pr, some nl =>
-      match takeLooks nl rest with
-      | some (looks, ts) =>
-        match decTree (ts.length + 1) ts with
-        | some (root, []) =>
-          match (parseDocument pr root : R (RegisterDescription × St Float)) with
-          | .ok (rd, st) => dDoc rd st looks
-          | .err _ => "err"
-          | .panic => "panic"
-        | _ => "bad-tree"
-      | none => "bad-looks"
+  | "doc" :: p :: nform :: rest =>
+    match profileOf p, nform.toNat? with
+    | some pr, some nf =>
+      match takeFormulas nf rest with
+      | some (formulas, nlook :: rest) =>
+        match nlook.toNat? with
+        | some nl =>
+          match takeLooks nl rest with
+          | some (looks, ts) =>
+            match decTree (ts.length + 1) ts with
+            | some (root, []) => handleDoc pr formulas looks root
+            | _ => "bad-tree"
+          | none => "bad-looks"
+        | none => "bad-op"
+      | _ => "bad-formulas"
     | _, _ => "bad-op"
   | ["f64", h] =>
     match hexToStr h with
